@@ -245,14 +245,13 @@ func fnScan(ctx *cmdContext, args map[string]any) (output respValue, err error) 
 func fnTouch(ctx *cmdContext, args map[string]any) (output respValue, err error) {
 	keyNames := args["key"].([]any)
 
-	count := 0
+	// one lock section for all keys, like EXISTS: the count is that of a single instant
+	keyStrs := make([]string, 0, len(keyNames))
 	for _, k := range keyNames {
-		if ctx.dsc.touch(k.(string)) {
-			count++
-		}
+		keyStrs = append(keyStrs, k.(string))
 	}
 
-	output.data = respInt(count)
+	output = ctx.dsc.exists(keyStrs)
 	return
 }
 
